@@ -3,149 +3,80 @@ package extract
 import (
 	"fmt"
 	"go/ast"
-	"go/token"
 	"sort"
 	"strconv"
 	"strings"
 )
 
-// Rpm: the facts of the rpm header reader that are tables rather than logic:
-//   - the numeric values of the Tag and Kind constants (from the stringer file,
-//     which the compiler checks against the constants),
-//   - tagTable (tag -> declared data type), used by checkTagType,
-//   - wantTags of rpm/native_db.go,
-//   - for every `case rpm.TagX:` of the switch in Info.Load the Go type the
-//     value is asserted to have and whether the assertion is checked
-//     (`tagValue[T](e, v)`, whose body must use the comma-ok form) or a bare
-//     `v.(T)` that panics on a mismatch.
+// Rpm: the facts of the rpm header reader that are tables rather than logic.
+//
+// EVALUATED (design/EXTRACT.md, round 2) by the probe go/cmd/rxprobe/rpm on the
+// real reader (hooks of package rpm):
+//
+//	typeX, tagHeaderX   the constants as compiled (HeaderConstantsForVerif)
+//	tagTable            the (tag, declared type) rows of the table as initialised (TagTableForVerif): a literal, a
+//	                    generated file or a table filled in init() give the same rows
+//	wantTags            the tags Info.Load reads: a one-entry header whose entry is an unterminated string makes
+//	                    Load fail exactly for them (candidates: every tag of the table, its neighbours, unknown ones)
+//	loadAsserts         per wanted tag: the data types 1..9 under which Load accepts a one-entry header; the Go type
+//	                    is the one ReadData yields for exactly those types; `checked` = no type makes Load panic
+//	filenamesGuardsEmpty an empty name under the rpm4 Filenames tag neither panics nor hides the other names
+//	fileLoopUnderRecover directory indexes that point nowhere do not panic out of Load, well-formed ones give names
+//	filePatterns        the alternatives of the COMPILED expression (FilePatternsForVerif), split at top-level `|`
+//
+// so a map turned into a switch, a case routed through a generic helper, a
+// guard written the other way round or a pattern list built elsewhere leave
+// the text alone.
 func init() {
 	Register(Gen{Name: "Rpm", Run: func(repo string) (string, error) {
-		vals, err := stringerValues(repo, "rpm/internal/rpm/tag_string.go")
-		if err != nil {
+		var ans struct {
+			Consts       map[string]int64    `json:"consts"`
+			TagTable     [][2]int64          `json:"tagTable"`
+			FilePatterns string              `json:"filePatterns"`
+			Wanted       []int64             `json:"wanted"`
+			Accepts      map[string][]string `json:"accepts"`
+			GuardsEmpty  bool                `json:"guardsEmpty"`
+			UnderRecover bool                `json:"underRecover"`
+			Detail       []string            `json:"detail"`
+		}
+		if err := rxProbe(repo, "rpm", map[string]any{}, &ans); err != nil {
 			return "", err
 		}
+		vals := ans.Consts
 		out := Header("Rpm", "rpm/internal/rpm/tag_string.go", "rpm/internal/rpm/tag_table.go", "rpm/native_db.go")
-		// Kind constants
 		kinds := []string{"TypeNull", "TypeChar", "TypeInt8", "TypeInt16", "TypeInt32", "TypeInt64", "TypeString", "TypeBin", "TypeStringArray", "TypeI18nString"}
 		for _, k := range kinds {
 			v, ok := vals[k]
 			if !ok {
-				return "", fmt.Errorf("constant %s not in the stringer file", k)
+				return "", fmt.Errorf("constant %s not reported by the probe", k)
 			}
 			out += fmt.Sprintf("def %s : Nat := %d\n", lower(k), v)
 		}
 		for _, k := range []string{"TagHeaderImage", "TagHeaderSignatures", "TagHeaderImmutable", "TagHeaderI18nTable"} {
 			v, ok := vals[k]
 			if !ok {
-				return "", fmt.Errorf("constant %s not in the stringer file", k)
+				return "", fmt.Errorf("constant %s not reported by the probe", k)
 			}
 			out += fmt.Sprintf("def %s : Int := %d\n", lower(k), v)
 		}
-		// tagTable
-		_, tf, err := ParseFile(repo, "rpm/internal/rpm/tag_table.go")
-		if err != nil {
-			return "", err
+		if len(ans.TagTable) == 0 {
+			return "", fmt.Errorf("tagTable is empty")
 		}
 		var rows []string
-		found := false
-		ast.Inspect(tf, func(n ast.Node) bool {
-			vs, ok := n.(*ast.ValueSpec)
-			if !ok || len(vs.Names) != 1 || vs.Names[0].Name != "tagTable" || len(vs.Values) != 1 {
-				return true
-			}
-			cl, ok := vs.Values[0].(*ast.CompositeLit)
-			if !ok {
-				return true
-			}
-			found = true
-			for _, el := range cl.Elts {
-				row, ok := el.(*ast.CompositeLit)
-				if !ok || len(row.Elts) < 3 {
-					err = fmt.Errorf("tagTable row of unexpected shape")
-					return false
-				}
-				tag, ok1 := row.Elts[1].(*ast.Ident)
-				typ, ok2 := row.Elts[2].(*ast.Ident)
-				if !ok1 || !ok2 {
-					err = fmt.Errorf("tagTable row of unexpected shape")
-					return false
-				}
-				tv, ok1 := vals[tag.Name]
-				kv, ok2 := vals[typ.Name]
-				if !ok1 || !ok2 {
-					err = fmt.Errorf("tagTable mentions unknown constant %s/%s", tag.Name, typ.Name)
-					return false
-				}
-				rows = append(rows, fmt.Sprintf("(%d, %d)", tv, kv))
-			}
-			return false
-		})
-		if err != nil {
-			return "", err
-		}
-		if !found || len(rows) == 0 {
-			return "", fmt.Errorf("tagTable not found")
+		for _, r := range ans.TagTable {
+			rows = append(rows, fmt.Sprintf("(%d, %d)", r[0], r[1]))
 		}
 		out += "\n/-- (tag, declared type) rows of tagTable, in source order -/\ndef tagTable : List (Int × Nat) := [\n  " + strings.Join(rows, ",\n  ") + "]\n"
 
-		// wantTags and Load
-		_, nf, err := ParseFile(repo, "rpm/native_db.go")
-		if err != nil {
-			return "", err
-		}
-		var want []int64
-		foundWant := false
-		ast.Inspect(nf, func(n ast.Node) bool {
-			vs, ok := n.(*ast.ValueSpec)
-			if !ok || len(vs.Names) != 1 || vs.Names[0].Name != "wantTags" || len(vs.Values) != 1 {
-				return true
-			}
-			cl, ok := vs.Values[0].(*ast.CompositeLit)
-			if !ok {
-				return true
-			}
-			foundWant = true
-			for _, el := range cl.Elts {
-				kv, ok := el.(*ast.KeyValueExpr)
-				if !ok {
-					err = fmt.Errorf("wantTags element of unexpected shape")
-					return false
-				}
-				name := selName(kv.Key)
-				v, ok := vals[name]
-				if !ok {
-					err = fmt.Errorf("wantTags mentions unknown tag %q", name)
-					return false
-				}
-				want = append(want, v)
-			}
-			return false
-		})
-		if err != nil {
-			return "", err
-		}
-		if !foundWant {
-			return "", fmt.Errorf("wantTags not found")
-		}
+		want := append([]int64(nil), ans.Wanted...)
 		sort.Slice(want, func(i, j int) bool { return want[i] < want[j] })
 		out += "\ndef wantTags : List Int := " + LeanNatList(want) + "\n"
 
-		// is tagValue's own assertion checked?
-		helperChecked := false
-		if fd := FuncDecl(nf, "", "tagValue"); fd != nil {
-			ast.Inspect(fd.Body, func(n ast.Node) bool {
-				as, ok := n.(*ast.AssignStmt)
-				if ok && len(as.Lhs) == 2 && len(as.Rhs) == 1 {
-					if _, ok := as.Rhs[0].(*ast.TypeAssertExpr); ok {
-						helperChecked = true
-					}
-				}
-				return true
-			})
-		}
-		load := FuncDecl(nf, "Info", "Load")
-		if load == nil {
-			return "", fmt.Errorf("Info.Load not found")
+		// the Go type ReadData yields per data type
+		goType := map[int64]string{
+			vals["TypeChar"]: "[]byte", vals["TypeBin"]: "[]byte", vals["TypeInt8"]: "[]int8", vals["TypeInt16"]: "[]int16",
+			vals["TypeInt32"]: "[]int32", vals["TypeInt64"]: "[]uint64", vals["TypeString"]: "string",
+			vals["TypeStringArray"]: "[]string", vals["TypeI18nString"]: "[]string",
 		}
 		type assertRow struct {
 			tag     int64
@@ -153,85 +84,47 @@ func init() {
 			checked bool
 		}
 		var asserts []assertRow
-		var sw *ast.SwitchStmt
-		ast.Inspect(load.Body, func(n ast.Node) bool {
-			s, ok := n.(*ast.SwitchStmt)
-			if ok && sw == nil {
-				if sel, ok := s.Tag.(*ast.SelectorExpr); ok && sel.Sel.Name == "Tag" {
-					sw = s
-					return false
+		for _, t := range want {
+			row := ans.Accepts[strconv.FormatInt(t, 10)]
+			if len(row) < 10 {
+				return "", fmt.Errorf("rpm probe: no outcomes for wanted tag %d", t)
+			}
+			var okKinds []int64
+			panics, all := false, true
+			for k := int64(0); k < int64(len(row)); k++ {
+				if _, readable := goType[k]; !readable {
+					continue
+				}
+				switch row[k] {
+				case "ok":
+					okKinds = append(okKinds, k)
+				case "panic":
+					panics, all = true, false
+				default:
+					all = false
 				}
 			}
-			return true
-		})
-		if sw == nil {
-			return "", fmt.Errorf("switch e.Tag in Info.Load not found")
-		}
-		for _, st := range sw.Body.List {
-			cc, ok := st.(*ast.CaseClause)
-			if !ok {
-				continue
+			if all {
+				continue // read, but nothing is asserted about it
 			}
-			for _, ce := range cc.List {
-				name := selName(ce)
-				tv, ok := vals[name]
-				if !ok {
-					return "", fmt.Errorf("Info.Load case mentions unknown tag %q", name)
-				}
-				n := 0
-				// comma-ok assertions written inline count as checked
-				okForm := map[*ast.TypeAssertExpr]bool{}
-				for _, b := range cc.Body {
-					ast.Inspect(b, func(n ast.Node) bool {
-						if as, ok := n.(*ast.AssignStmt); ok && len(as.Lhs) == 2 && len(as.Rhs) == 1 {
-							if ta, ok := as.Rhs[0].(*ast.TypeAssertExpr); ok {
-								okForm[ta] = true
-							}
-						}
-						return true
-					})
-				}
-				for _, b := range cc.Body {
-					ast.Inspect(b, func(nd ast.Node) bool {
-						switch x := nd.(type) {
-						case *ast.TypeAssertExpr:
-							if x.Type != nil {
-								asserts = append(asserts, assertRow{tv, typeString(x.Type), okForm[x]})
-								n++
-							}
-						case *ast.CallExpr:
-							if ix, ok := x.Fun.(*ast.IndexExpr); ok {
-								if id, ok := ix.X.(*ast.Ident); ok && id.Name == "tagValue" {
-									asserts = append(asserts, assertRow{tv, typeString(ix.Index), helperChecked})
-									n++
-								}
-							}
-						}
-						return true
-					})
-				}
-				if n == 0 {
-					return "", fmt.Errorf("Info.Load case %s: no type assertion recognised", name)
-				}
-			}
-		}
-		// does the Filenames case skip empty names before slicing name[1:]?
-		guardsEmpty := false
-		for _, st := range sw.Body.List {
-			cc, ok := st.(*ast.CaseClause)
-			if !ok || len(cc.List) != 1 || selName(cc.List[0]) != "TagFilenames" {
-				continue
-			}
-			for _, b := range cc.Body {
-				ast.Inspect(b, func(n ast.Node) bool {
-					if is, ok := n.(*ast.IfStmt); ok && strings.HasPrefix(exprString(is.Cond), `name != "" &&`) {
-						guardsEmpty = true
+			typ := ""
+			for _, g := range []string{"[]byte", "[]int8", "[]int16", "[]int32", "[]uint64", "string", "[]string"} {
+				var ks []int64
+				for k, gt := range goType {
+					if gt == g {
+						ks = append(ks, k)
 					}
-					return true
-				})
+				}
+				sort.Slice(ks, func(i, j int) bool { return ks[i] < ks[j] })
+				if fmt.Sprint(ks) == fmt.Sprint(okKinds) {
+					typ = g
+				}
 			}
+			if typ == "" {
+				typ = fmt.Sprintf("<accepted under the data types %v>", okKinds)
+			}
+			asserts = append(asserts, assertRow{t, typ, !panics})
 		}
-		sort.SliceStable(asserts, func(i, j int) bool { return asserts[i].tag < asserts[j].tag })
 		out += "\n/-- (tag, asserted Go type, assertion is checked) for every case of the switch in Info.Load -/\ndef loadAsserts : List (Int × String × Bool) := [\n"
 		for i, a := range asserts {
 			sep := ","
@@ -241,65 +134,11 @@ func init() {
 			out += fmt.Sprintf("  (%d, %s, %v)%s\n", a.tag, LeanString(a.typ), a.checked, sep)
 		}
 		out += "]\n"
-		out += fmt.Sprintf("\n/-- the Filenames case of Info.Load skips empty names before `name[1:]` -/\ndef filenamesGuardsEmpty : Bool := %v\n", guardsEmpty)
-
-		// The file name loop of Info.Load (`for j := range basename`): is a
-		// deferred function calling recover() installed before it, and does the
-		// Filenames case record the names that do NOT match filePatterns?
-		underRecover := false
-		seenLoop := false
-		for _, st := range load.Body.List {
-			switch x := st.(type) {
-			case *ast.DeferStmt:
-				if seenLoop {
-					continue
-				}
-				ast.Inspect(x, func(n ast.Node) bool {
-					if c, ok := n.(*ast.CallExpr); ok {
-						if id, ok := c.Fun.(*ast.Ident); ok && id.Name == "recover" {
-							underRecover = true
-						}
-					}
-					return true
-				})
-			case *ast.RangeStmt:
-				if exprString(x.X) == "basename" {
-					seenLoop = true
-				}
-			}
-		}
-		if !seenLoop {
-			return "", fmt.Errorf("Info.Load: the loop over basename was not found")
-		}
-		out += fmt.Sprintf("\n/-- the loop over basename in Info.Load runs after a deferred recover() -/\ndef fileLoopUnderRecover : Bool := %v\n", underRecover)
-		// filePatterns: the list of alternatives joined with `|`
-		var pats []string
-		for _, d := range nf.Decls {
-			fd, ok := d.(*ast.FuncDecl)
-			if !ok || fd.Name.Name != "init" || fd.Recv != nil {
-				continue
-			}
-			ast.Inspect(fd.Body, func(n ast.Node) bool {
-				as, ok := n.(*ast.AssignStmt)
-				if !ok || len(as.Lhs) != 1 || len(as.Rhs) != 1 || exprString(as.Lhs[0]) != "pat" {
-					return true
-				}
-				cl, ok := as.Rhs[0].(*ast.CompositeLit)
-				if !ok {
-					return true
-				}
-				for _, el := range cl.Elts {
-					if bl, ok := el.(*ast.BasicLit); ok && bl.Kind == token.STRING {
-						if v, err := strconv.Unquote(bl.Value); err == nil {
-							pats = append(pats, v)
-						}
-					}
-				}
-				return false
-			})
-		}
+		out += fmt.Sprintf("\n/-- the Filenames case of Info.Load skips empty names before `name[1:]` -/\ndef filenamesGuardsEmpty : Bool := %v\n", ans.GuardsEmpty)
+		out += fmt.Sprintf("\n/-- the loop over basename in Info.Load runs after a deferred recover() -/\ndef fileLoopUnderRecover : Bool := %v\n", ans.UnderRecover)
+		pats := rxSplitAlternatives(ans.FilePatterns)
 		if len(pats) == 0 {
-			return "", fmt.Errorf("filePatterns: the pattern list was not found")
+			return "", fmt.Errorf("filePatterns: empty expression")
 		}
 		out += "\n/-- the alternatives of the filePatterns regular expression, in source order -/\ndef filePatterns : List String := [\n"
 		for i, p := range pats {
@@ -312,6 +151,50 @@ func init() {
 		out += "]\n"
 		return out + Footer("Rpm"), nil
 	}})
+}
+
+// rxSplitAlternatives splits the source of a regular expression at its
+// top-level `|` (outside groups, character classes and escapes).
+func rxSplitAlternatives(src string) []string {
+	var out []string
+	depth, start := 0, 0
+	inClass := false
+	for i := 0; i < len(src); i++ {
+		c := src[i]
+		switch {
+		case c == '\\':
+			i++
+		case inClass:
+			if c == ']' {
+				inClass = false
+			} else if c == '[' && i+1 < len(src) && src[i+1] == ':' {
+				// [:alpha:]
+				if j := strings.Index(src[i:], ":]"); j >= 0 {
+					i += j + 1
+				}
+			}
+		case c == '[':
+			inClass = true
+			// a leading ] (or ^]) is literal
+			if i+1 < len(src) && src[i+1] == '^' {
+				i++
+			}
+			if i+1 < len(src) && src[i+1] == ']' {
+				i++
+			}
+		case c == '(':
+			depth++
+		case c == ')':
+			depth--
+		case c == '|' && depth == 0:
+			out = append(out, src[start:i])
+			start = i + 1
+		}
+	}
+	if src == "" {
+		return nil
+	}
+	return append(out, src[start:])
 }
 
 func selName(e ast.Expr) string {
@@ -338,37 +221,4 @@ func typeString(e ast.Expr) string {
 		return "interface{}"
 	}
 	return "?"
-}
-
-// stringerValues reads the `_ = x[Name-VALUE]` lines of a stringer file.
-func stringerValues(repo, rel string) (map[string]int64, error) {
-	_, f, err := ParseFile(repo, rel)
-	if err != nil {
-		return nil, err
-	}
-	vals := map[string]int64{}
-	ast.Inspect(f, func(n ast.Node) bool {
-		ix, ok := n.(*ast.IndexExpr)
-		if !ok {
-			return true
-		}
-		be, ok := ix.Index.(*ast.BinaryExpr)
-		if !ok || be.Op != token.SUB {
-			return true
-		}
-		id, ok := be.X.(*ast.Ident)
-		if !ok {
-			return true
-		}
-		v, err := IntLit(be.Y)
-		if err != nil {
-			return true
-		}
-		vals[id.Name] = v
-		return true
-	})
-	if len(vals) == 0 {
-		return nil, fmt.Errorf("%s: no stringer value lines found", rel)
-	}
-	return vals, nil
 }
